@@ -162,5 +162,7 @@ PriorActs(p) ==
                    [op |-> "AddBreak", i |-> 1], [op |-> "AddRun", i |-> 1, s |-> <<>>], [op |-> "SetParaProp", i |-> 1, v |-> 3] >>
     [] p = 4 -> << [op |-> "AddBreak", i |-> 1], [op |-> "AddRun", i |-> 1, s |-> <<SP, PLAIN>>], [op |-> "SetParaProp", i |-> 1, v |-> 1],  \* begins with a break
                    [op |-> "AddPara"], [op |-> "AddBreak", i |-> 2] >>
+    [] p = 5 -> << [op |-> "AddRun", i |-> 1, s |-> <<PLAIN, NL, PLAIN>>], [op |-> "AddPara"],                       \* runs that hold a newline / a tab as plain characters
+                   [op |-> "AddRun", i |-> 2, s |-> <<SP, NL>>], [op |-> "AddRun", i |-> 2, s |-> <<TAB, PLAIN>>] >>
 Prior(p, site) == FoldLeft(LAMBDA b, a : ImplBody(b, a), Empty(site), PriorActs(p))
 =============================================================================
